@@ -139,6 +139,10 @@ class Interp:
         elif k in ("obj", "dict", "opaque"):
             if isinstance(v, Obj):
                 return v.ref
+            if isinstance(v, FuncVal) and k == "opaque":
+                r = self.alloc(t)
+                self.c.__dict__.setdefault("stored_callables", {})[str(r.ref)] = v
+                return r.ref
             if isinstance(v, ExcObj) and k == "opaque":
                 # an exception instance stored in the heap: a fresh opaque object that remembers whether it is a TransportError
                 from . import models
@@ -586,6 +590,8 @@ class Interp:
 
     def contains(self, cont, x, fr):
         cont = self.force(cont)
+        if isinstance(cont, LibObj) and cont.kind == "local_dict" and cont.heap is not None:
+            cont = cont.heap
         if isinstance(cont, Obj) and cont.typ.kind == "dict":
             heap = fr.heap if fr.spec and fr.heap is not None else None
             if not fr.spec:
@@ -792,6 +798,10 @@ class Interp:
             return self.instantiate(f, args, kwargs, fr, node)
         if isinstance(f, (ExternalName, LibObj)):
             return self.lib.call_external(self, f, args, kwargs, fr, node)
+        if isinstance(f, Obj) and f.typ.kind == "opaque" and tname(f.typ) in getattr(self.lib, "opaque_calls", {}):
+            return self.lib.opaque_calls[tname(f.typ)](self, f, args, kwargs, fr, node)
+        if isinstance(f, FuncVal.__mro__[0]) and False:
+            pass
         if f is None:
             raise RaiseSig(self.make_exc("TypeError", site=node))
         if callable(f) and fr is not None and fr.spec:
@@ -1014,6 +1024,11 @@ class Interp:
 
     def ex_Assign(self, s, fr):
         v = self.ev(s.value, fr)
+        if isinstance(v, LibObj) and v.kind == "local_dict" and v.heap is None and not v.py and fr.func is not None \
+                and len(s.targets) == 1 and isinstance(s.targets[0], ast.Name):
+            lt = getattr(self.w.types, "LOCALS", {}).get((fr.func.qualname, s.targets[0].id))
+            if lt is not None:
+                v.heap = self.alloc(lt)  # a local `{}` whose declared use is a symbolically keyed dict (A-TYPES)
         for t in s.targets:
             self.assign(t, v, fr)
 
